@@ -609,7 +609,8 @@ def run_property(prop, tier, seed, sel, tmp, logdir, args, t0):
                     "time_s": round(r["duration_s"], 2),
                     "solver_s": round(r["cbmc_stats"].get("runtime_solver_s", 0.0) or 0.0, 3),
                     "symex_s": round(r["cbmc_stats"].get("runtime_symex_s", 0.0) or 0.0, 3),
-                    "vccs": r["cbmc_stats"].get("vccs_generated", 0)})
+                    "vccs": r["cbmc_stats"].get("vccs_generated", 0),
+                    "ssa_steps": r["cbmc_stats"].get("size_program_expression", 0)})
         solver_s += rec["solver_s"]
         expect_fail = m.get("expect", "") == "fail"
         if r["exit_status"] in ("timeout", "out_of_memory") or (r["status"] != "Success" and not r["failed_checks"] and not r["unsat_covers"] and p.get("failed", 0) == 0 and p.get("unsatisfiable", 0) == 0):
@@ -769,6 +770,12 @@ def run_property(prop, tier, seed, sel, tmp, logdir, args, t0):
                 "rule": "one evaluation = one Kani proof harness (a CBMC/CaDiCaL query over all inputs inside the stated bound); it counts as non-trivial when the solver finished, every assertion and unwinding assertion held, and the harness's kani::cover! reachability witness was satisfiable (or it failed exactly as a recorded known finding)",
                 "samples": records,
                 "obligations": obligations, "discharged": discharged,
+                # model_checking keys: measured by CBMC on this run (bounded model checking has no
+                # explicit state graph; these are its symbolic counterparts)
+                "states": sum(r.get("ssa_steps", 0) or 0 for r in records if "undecided" not in r.get("verdict", "")),
+                "transitions": sum(r.get("vccs", 0) or 0 for r in records if "undecided" not in r.get("verdict", "")),
+                "traces_validated_against_impl": sum(1 for r in records if r.get("replay") or "native oracle" in r.get("verdict", "")),
+                "explanation": "states = SSA steps of the unwound programs CBMC executed symbolically (each step is one symbolic program state standing for all inputs inside the bound); transitions = verification conditions generated along them and handed to the SAT solver; traces_validated_against_impl = solver counterexamples replayed natively against the real crate in this run (0 when every harness holds)",
                 "checker_cmd": "cargo kani (Kani 0.68.0, CBMC 6.11.0, CaDiCaL) on a shadow copy of /repo/src",
                 "solver_time_s": round(solver_s, 2),
                 "undecided": undecided,
